@@ -166,7 +166,8 @@ def run_shard(spec, M):
     fam, seed = spec["family"], spec["seed"]
     if fam == "docs":
         for i in range(spec["start"], spec["start"] + spec["n"]):
-            R = doccheck.make_doc(seed, "C11", i, ascii_only=True)
+            kw = {"size": "huge", "special": 0.2} if i % 60 == 0 else {}        # ids crossing 1000
+            R = doccheck.make_doc(seed, "C11", i, ascii_only=True, **kw)
             check_document(R.text, M, {"kind": "text", "text": R.text})
             if i % 499 == 0:
                 M.sample({"text": short(R.text, 300)})
